@@ -91,6 +91,7 @@ structure Desc where
   fp : Fp
   sections : List Section
   groups : List (Option Str) := []   -- values of the session-level `a=group` attributes, in order
+  sessSetup : Option Str := none     -- value of the first session-level `a=setup` that has one
 deriving DecidableEq, Repr
 
 structure Trx where
@@ -401,13 +402,19 @@ def roleOfSetup (v : Str) : Bool :=
   else if v = "actpass".toList then false
   else true
 
-/-- the `dtls_role` block: the role is derived once, from the first description that gets this far -/
+/-- the `dtls_role` block. Until the DTLS transport exists the role is derived from EVERY description that
+gets this far (round-3 `fix:`; before: only while unset): direct modes are always client; WebRTC reads the
+first media-level `a=setup`, else the session-level one (round-3 `fix:`). A description without any
+`a=setup` keeps the role. Once the transport exists the role stays. -/
 def deriveRole (pc : Pc) (d : Desc) : Option Bool :=
-  match pc.dtlsRole with
-  | some r => some r
-  | none =>
-    if pc.mode = .rtp || pc.mode = .srtp then some true
-    else (d.sections.findSome? (·.setup)).map roleOfSetup
+  if pc.dtlsRole.isSome && pc.dtlsStarted then pc.dtlsRole
+  else
+    let new :=
+      if pc.mode = .rtp || pc.mode = .srtp then some true
+      else (match d.sections.findSome? (fun s : Section => s.setup) with | some v => some v | none => d.sessSetup).map roleOfSetup
+    match new with
+    | some r => some r
+    | none => pc.dtlsRole
 
 /-- Rest of `set_remote_description` after the fingerprint has been cached: start the transport
 (SDES-SRTP: `start_direct`), apply the sections to the transceivers, store the description,
@@ -415,7 +422,6 @@ configure the RTP media transports (RTP mode), and only then move the signaling 
 (since the round-2 `fix:` commit). The two transport steps are where a failing socket layer
 surfaces — for RTP mode after everything but the state was applied. -/
 def remoteTail (pc4 : Pc) (d : Desc) (s' : SigState) : Pc × Res :=
-  if pc4.bindFails && pc4.mode = .srtp && d.sections.any (·.addr4) then (pc4, .err .internal) else
   let pc5 := applyRemote pc4 d
   let pc6 := { pc5 with rem := some d }
   if pc6.bindFails && pc6.mode = .rtp && rtpConfigureBinds pc6.trxs d then (pc6, .err .internal) else
@@ -428,6 +434,9 @@ def remoteAfterReinvite (pc1 : Pc) (d : Desc) (fp : Option Nat) (unchanged : Boo
   match remoteTransition pc1.sig d.ty with
   | .error e => (pc1, .err e)
   | .ok s' =>
+  -- SDES-SRTP starts its direct transport HERE, before anything is recorded (round-3 `fix:`; before it:
+  -- after the mid counter, the role and the fingerprint cache had been updated)
+  if !unchanged && pc1.bindFails && pc1.mode = .srtp && d.sections.any (·.addr4) then (pc1, .err .internal) else
   -- the mid counter moves only for a description that passed the check (round-2 `fix:`)
   let pc2 := { pc1 with nextMid := bumpNextMid pc1.nextMid d.sections }
   if unchanged then ({ pc2 with sig := s', rem := some d }, .ok) else
@@ -464,13 +473,12 @@ def ensureMid (st : List Trx × Nat) (i : Nat) : List Trx × Nat :=
 def createOffer (pc : Pc) : Pc × Res :=
   if pc.sig ≠ .stable then (pc, .err .invalidState)
   else if pc.trxs.isEmpty then (pc, .err .invalidState)
-  -- RTP mode binds the primary socket BEFORE any mid is assigned (round-2 `fix:`)
-  else if pc.bindFails && pc.mode = .rtp then (pc, .err .internal)
+  -- the direct modes bind (RTP) / gather, wait and bind (SDES-SRTP) BEFORE any mid is assigned
+  -- (round-2 / round-3 `fix:`)
+  else if pc.bindFails && (pc.mode = .rtp || pc.mode = .srtp) then (pc, .err .internal)
   else
     let r := (List.range pc.trxs.length).foldl ensureMid (pc.trxs, pc.nextMid)
-    let pc' := { pc with trxs := r.1, nextMid := r.2 }
-    -- SDES-SRTP: gathering wait, then `setup_direct_rtp_offer_with_rtcp` for the first section
-    if pc.bindFails && pc.mode = .srtp then (pc', .err .internal) else (pc', .ok)
+    ({ pc with trxs := r.1, nextMid := r.2 }, .ok)
 
 /-- section → transceiver matching of `build_description(Answer)`; `none` = "No transceiver found" -/
 def answerOrder (ts : List Trx) : List Section → List Nat → List Nat → Option (List Nat)
